@@ -2,9 +2,9 @@
 from harness import check, replay
 
 LENSES = {
-    "quick": ["core_pointwise", "core_reduce", "core_index", "core_stackcat", "core_intops", "core_moreops", "binder_indep"],
+    "quick": ["core_pointwise", "core_reduce", "core_index", "core_stackcat", "core_intops", "core_moreops", "binder_indep", "neginf_contraction"],
     "thorough": ["core_pointwise", "core_reduce", "core_index", "core_stackcat", "core_intops", "core_moreops",
-                 "subs_tensor", "subs_chain", "binder_indep"],
+                 "subs_tensor", "subs_chain", "binder_indep", "neginf_contraction"],
 }
 
 
